@@ -38,13 +38,6 @@ pub(crate) fn point(name: &'static str) {
 }
 
 #[inline]
-pub(crate) fn point_at(name: &'static str, index: u64) {
-    if let Some(hooks) = HOOKS.get() {
-        (hooks.point)(name, index);
-    }
-}
-
-#[inline]
 pub(crate) fn block_until(name: &'static str, ready: &dyn Fn() -> bool) {
     if let Some(hooks) = HOOKS.get() {
         (hooks.block_until)(name, ready);
